@@ -131,6 +131,45 @@ theorem codeContribution_prefix (I : RangeInst F M) (G' H' : ℕ → M) (π : Pr
   rw [dot_congr_gen (I.n * I.m) _ G' I.G (fun i hi => (hG i hi).symm),
     dot_congr_gen (I.n * I.m) _ H' I.H (fun i hi => (hH i hi).symm)]
 
+/-- the folding prover reads the vector generators only below the current vector length -/
+theorem wipProve_prefix (y : F) (t : ℕ) (g : M) (Gb : ℕ → M) (dL dR : ℕ → ℕ → F) (r s : F) (d η : ℕ → F) (e : F)
+    (es : List F) (j : ℕ) (a b : ℕ → F) (G H G' H' : ℕ → M) (α : ℕ → F)
+    (hG : ∀ i < 2 ^ es.length, G i = G' i) (hH : ∀ i < 2 ^ es.length, H i = H' i) :
+    wipProve y t g Gb dL dR r s d η e es j a b G H α = wipProve y t g Gb dL dR r s d η e es j a b G' H' α := by
+  induction es generalizing j a b G H G' H' α with
+  | nil =>
+    simp only [wipProve]
+    rw [hG 0 (by simp), hH 0 (by simp)]
+  | cons ej es ih =>
+    simp only [wipProve]
+    have hpos : 0 < 2 ^ es.length := Nat.two_pow_pos _
+    have h2 : 2 ^ (ej :: es).length = 2 ^ es.length + 2 ^ es.length := by simp [pow_succ]; ring
+    have hGlo : ∀ i < 2 ^ es.length, G i = G' i := fun i hi => hG i (by rw [h2]; omega)
+    have hGhi : ∀ i < 2 ^ es.length, G (2 ^ es.length + i) = G' (2 ^ es.length + i) := fun i hi => hG _ (by rw [h2]; omega)
+    have hHlo : ∀ i < 2 ^ es.length, H i = H' i := fun i hi => hH i (by rw [h2]; omega)
+    have hHhi : ∀ i < 2 ^ es.length, H (2 ^ es.length + i) = H' (2 ^ es.length + i) := fun i hi => hH _ (by rw [h2]; omega)
+    rw [ih (j + 1) _ _ _ _ (fun i => ej⁻¹ • G' i + (ej * (y ^ 2 ^ es.length)⁻¹) • G' (2 ^ es.length + i))
+      (fun i => ej • H' i + ej⁻¹ • H' (2 ^ es.length + i)) _
+      (fun i hi => by rw [hGlo i hi, hGhi i hi]) (fun i hi => by rw [hHlo i hi, hHhi i hi])]
+    rw [dot_congr_gen _ _ (fun i => G (2 ^ es.length + i)) (fun i => G' (2 ^ es.length + i)) hGhi,
+      dot_congr_gen _ _ H H' hHlo, dot_congr_gen _ _ G G' hGlo,
+      dot_congr_gen _ _ (fun i => H (2 ^ es.length + i)) (fun i => H' (2 ^ es.length + i)) hHhi]
+
+/-- **C12 (prover).** The model prover depends on the vector generators only through their first `n·m` entries. -/
+theorem rangeProve_prefix (I : RangeInst F M) (hn : 0 < I.n) (G' H' : ℕ → M) (v p : ℕ → ℕ) (r : ℕ → ℕ → F)
+    (α : ℕ → F) (dL dR : ℕ → ℕ → F) (rr ss : F) (d η : ℕ → F) (y z : F) (es : List F) (e : F)
+    (hN : I.n * I.m = 2 ^ es.length)
+    (hG : ∀ i < I.n * I.m, I.G i = G' i) (hH : ∀ i < I.n * I.m, I.H i = H' i) :
+    Model.rangeProve { I with G := G', H := H' } v p r α dL dR rr ss d η y z es e
+      = Model.rangeProve I v p r α dL dR rr ss d η y z es e := by
+  rw [rangeProve_bridge { I with G := G', H := H' } hn, rangeProve_bridge I hn]
+  unfold rangeProve
+  simp only
+  rw [dot_congr_gen _ _ G' I.G (fun i hi => (hG i hi).symm), dot_congr_gen _ _ H' I.H (fun i hi => (hH i hi).symm)]
+  congr 1
+  exact wipProve_prefix y I.t I.hb I.Gb dL dR rr ss d η e es 0 _ _ G' H' I.G I.H _
+    (fun i hi => (hG i (by rw [hN]; exact hi)).symm) (fun i hi => (hH i (by rw [hN]; exact hi)).symm)
+
 end
 
 end Bpp.GensThm
